@@ -1057,3 +1057,59 @@ def mut_views(fns, src, nmax, name=None):
     if len(set(done)) < 8:
         res.verdict, res.reason = 'inconclusive', 'vacuity: only %d view functions could be executed (%s)' % (len(set(done)), '; '.join(skipped)[:300])
     return finish(res, ex, t0, paths, unw)
+
+
+# ----------------------------------------------------------------------------------------------- C15 / C16: re-boxing a Vec / Box<[T]>
+@guarded
+def from_heap(fns, src, nmax, which='try_from_vec', name=None):
+    """GenericArray::try_from_vec / try_from_boxed_slice with a source of symbolic length L and capacity CAP >= L: Ok iff L == N, and then the
+    very same block is owned by the returned Box under the layout of N elements; otherwise LengthError, every element dropped exactly once and
+    the block freed. ALL N, L, CAP; loop-free."""
+    N, J, L, CAP = syms('N', 'J', 'L', 'CAP')
+    res = Result(name or which, ['C15', 'C16', 'C03'], 'all 64-bit N, source lengths L and capacities CAP >= L; loop-free')
+    ex = Exec(fns, src, J, N, nmax=nmax)
+    st = new_state()
+    st.pc += [ULE(L, CAP), ULT(CAP, bv(2 ** 62)), ULT(N, bv(2 ** 62))]
+    arr = Arr('Heap0', CAP)
+    blk = Block('V0', arr)
+    st.blocks[blk] = 'vec'
+    st.notes = dict(st.notes)
+    st.notes['cap'] = {arr: CAP}
+    st.status[arr] = z3.If(ULT(J, L), LIVE, UNINIT)
+    if which == 'try_from_vec':
+        arg = {'kind': 'vec', 'arr': arr, 'len': L, 'blk': blk}
+    else:
+        st.pc.append(L == CAP)      # a Box<[T]> owns exactly its length
+        sl = Slice(arr, bv(0), L)
+        sl.block = blk
+        st.blocks[blk] = 'boxed'
+        arg = BoxVal(sl, init=True)
+    fn = ex.find_fn('GenericArray::<T, N>::' + which)
+    if fn is None:
+        raise NotImplementedError('function not found: ' + which)
+    t0, paths, unw = time.time(), 0, 0
+    seen = set()
+    for (s2, kind, val) in ex.run_fn(st, fn, [arg]):
+        paths += 1
+        unw += kind == 'unwind'
+        inL = ULT(J, L)
+        if kind != 'ret':
+            # an element destructor may panic while a refused source is dropped; the conversion itself must not
+            ex.require(s2, z3.BoolVal('own_panic' not in s2.notes), 'the fallible heap conversion panics on its own', 'end')
+            continue
+        if val.variant == 'Ok':
+            seen.add('ok')
+            ex.require(s2, L == N, 'Ok although the source does not hold exactly N elements', 'end')
+            b = val.fields[0]
+            same = isinstance(b, BoxVal) and isinstance(b.ptr, BlockPtr) and b.ptr.block is blk
+            ex.require(s2, z3.BoolVal(same), 'the returned Box does not own the source\'s own block (the allocation is not reused)', 'end')
+            ex.require(s2, z3.BoolVal(s2.blocks.get(blk) == 'boxed'), 'the source block is not owned by the returned Box', 'end')
+            ex.require(s2, z3.Implies(inL, ex.stat(s2, arr) == LIVE), 'an element of the source was dropped or lost on the way into the Box', 'end')
+        else:
+            seen.add('err')
+            ex.require(s2, L != N, 'LengthError although the source holds exactly N elements', 'end')
+            ex.require(s2, z3.Implies(inL, ex.stat(s2, arr) == DROPPED), 'elements of a refused source are not dropped exactly once (leak)', 'end')
+            ex.require(s2, z3.BoolVal(s2.blocks.get(blk) == 'freed'), 'the block of a refused source is never freed (leak)', 'end')
+    if seen != {'ok', 'err'}:
+        res.verdict, res.reason = 'inconclusive', 'vacuity: outcomes seen %s' % sorted(seen)
+    return finish(res, ex, t0, paths, unw)
